@@ -356,6 +356,22 @@ func inlineCall(F *ssa.Function, call *ssa.Call, g *ssa.Function) {
 			threadContinuation(F, b)
 		}
 		fuseBlocks(F)
+		// a return block that merges what several inlined error sites return is a return at each of them
+		for again := true; again; {
+			again = false
+			for _, b := range F.Blocks {
+				touchedByInl := strings.Contains(b.Comment, "inl.")
+				for _, q := range b.Preds {
+					if strings.Contains(q.Comment, "inl.") {
+						touchedByInl = true
+					}
+				}
+				if touchedByInl && splitReturn(F, b) {
+					again = true
+					break
+				}
+			}
+		}
 		if len(F.Blocks) == before {
 			break
 		}
@@ -1013,6 +1029,9 @@ func threadContinuation(F *ssa.Function, K *ssa.BasicBlock) {
 			S.Instrs = append(newPhis, S.Instrs...)
 		}
 		// the new edge N → S
+		if !strings.Contains(S.Comment, "inl.") {
+			S.Comment += "+inl.target"
+		}
 		S.Preds = append(S.Preds, N)
 		for _, in := range S.Instrs {
 			sp, ok := in.(*ssa.Phi)
@@ -1249,19 +1268,52 @@ func absorbPhiOnlyPreds(F *ssa.Function, K *ssa.BasicBlock) {
 				}
 				kphis = append(kphis, ph)
 			}
+			needNew := map[*ssa.Phi]bool{}
 			for _, pp := range pphis {
 				if r := pp.Referrers(); r != nil {
 					for _, u := range *r {
 						up, isPhi := u.(*ssa.Phi)
 						if !isPhi || up.Block() != K {
-							ok = false
+							needNew[pp] = true
 						}
+					}
+				}
+			}
+			if len(needNew) > 0 {
+				// the value is read elsewhere too: it moves into K as a phi of its own, which is only the
+				// same value if K's other predecessors lie below P (they then carry it unchanged)
+				for j, q := range K.Preds {
+					if j != i && !blockDominates(P, q) {
+						ok = false
 					}
 				}
 			}
 			if !ok {
 				continue
 			}
+			var movedPhis []ssa.Instruction
+			for _, pp := range pphis {
+				if !needNew[pp] {
+					continue
+				}
+				np := &ssa.Phi{Comment: pp.Comment}
+				setUnexported(np, "block", K)
+				setUnexported(np, "typ", pp.Type())
+				setUnexported(np, "pos", pp.Pos())
+				for j := range K.Preds {
+					if j == i {
+						np.Edges = append(np.Edges, pp) // expanded below like every K phi that reads a P phi
+					} else {
+						np.Edges = append(np.Edges, np)
+					}
+				}
+				replaceUses(pp, np)
+				addReferrer(pp, np)
+				addReferrer(np, np)
+				movedPhis = append(movedPhis, np)
+				kphis = append(kphis, np)
+			}
+			K.Instrs = append(movedPhis, K.Instrs...)
 			// rewrite
 			for _, kp := range kphis {
 				v := kp.Edges[i]
